@@ -1153,7 +1153,8 @@ def _fix_arguments(self: fst.FST) -> None:
     if not (posonlyargs or args or vararg or kwonlyargs or kwarg):  # if completely empty then just delete everything and we are done
         ln, col, end_ln, end_col = self.loc
 
-        self._put_src(None, ln, col, end_ln, end_col, True)
+        if not ((frag := next_frag(lines, ln, col, end_ln, end_col, True)) and frag.src.startswith('#')):  # unless there are comments which were not removed with the arguments, those stay like in any other emptied sequence
+            self._put_src(None, ln, col, end_ln, end_col, True)
 
         return
 
